@@ -428,3 +428,424 @@ Proof.
 Qed.
 
 End Loop.
+
+(* ================================================================== I. segmentation at the component *)
+
+Section Comp.
+Variable keyfn : nat -> list N.
+Variable client : bool.
+Notation loop := (loop keyfn client).
+Notation recv := (recv keyfn client).
+Notation recv_all := (recv_all keyfn client).
+
+Lemma out_app_nil_r o : out_app o no_out = o.
+Proof. destruct o as [d w c]. unfold out_app, no_out. cbn. now rewrite !app_nil_r, Nat.add_0_r. Qed.
+Lemma out_app_nil_l o : out_app no_out o = o.
+Proof. destruct o as [d w c]. reflexivity. Qed.
+
+Lemma recv_closed s c : crecv s = true -> recv s c = ROk (s, no_out).
+Proof. intros H. unfold WebSocket.recv. now rewrite H. Qed.
+
+(* two consecutive reads = one read of the concatenation *)
+Lemma recv_app s a b : recv_all s [a; b] = recv s (a ++ b).
+Proof.
+  cbn [WebSocket.recv_all]. unfold WebSocket.recv at 1 3.
+  destruct (crecv s) eqn:Ec.
+  - rewrite (recv_closed s b Ec). reflexivity.
+  - rewrite (app_assoc (buf s) a b).
+    set (d := buf s ++ a).
+    pose proof (loop_app keyfn client (S (length (d ++ b))) (csent s) (ps s) d b ltac:(lia)) as A.
+    rewrite (loop_fuel keyfn client (S (length d)) (S (length (d ++ b)))) by (rewrite ?app_length; lia).
+    destruct (loop (S (length (d ++ b))) (csent s) (ps s) d) as [r| |] eqn:E1; [|now rewrite A|contradiction].
+    rewrite A. clear A.
+    destruct (r_closed r) eqn:Er.
+    + rewrite Er. unfold on_close. cbn [crecv csent buf WebSocket.ps].
+      rewrite recv_closed by reflexivity. now rewrite out_app_nil_r.
+    + unfold WebSocket.recv. cbn [crecv csent buf WebSocket.ps].
+      pose proof (loop_buf_len keyfn client _ _ _ _ _ E1) as BL.
+      rewrite (loop_fuel keyfn client (S (length (r_buf r ++ b))) (S (length (d ++ b))))
+        by (rewrite ?app_length in *; lia).
+      destruct (loop (S (length (d ++ b))) (csent s) (r_ps r) (r_buf r ++ b)) as [y| |]; cbn [seq_res];
+        try reflexivity.
+      cbn [r_closed r_msgs r_writes r_buf r_ps].
+      destruct (r_closed y).
+      * unfold on_close. cbn [crecv csent buf WebSocket.ps written pclose].
+        unfold out_app, no_out. cbn [delivered written pclose].
+        rewrite !app_nil_r, <- !app_assoc. reflexivity.
+      * unfold out_app, no_out. cbn [delivered written pclose].
+        rewrite !app_nil_r. reflexivity.
+Qed.
+
+Lemma recv_all_cons s c cs :
+  recv_all s (c :: cs) =
+  match recv s c with
+  | ROk (s1, x) => match recv_all s1 cs with
+                   | ROk (s2, y) => ROk (s2, out_app x y)
+                   | RCrash => RCrash
+                   | RFuel => RFuel
+                   end
+  | RCrash => RCrash
+  | RFuel => RFuel
+  end.
+Proof. reflexivity. Qed.
+
+Lemma recv_all_one s c : recv_all s [c] = recv s c.
+Proof.
+  cbn [WebSocket.recv_all]. destruct (recv s c) as [[s1 x]| |]; try reflexivity.
+  now rewrite out_app_nil_r.
+Qed.
+
+Theorem segmentation_ne cs : forall s c, recv_all s (c :: cs) = recv_all s [concat (c :: cs)].
+Proof.
+  induction cs as [|c' cs IH]; intros s c.
+  - cbn [concat]. now rewrite app_nil_r.
+  - rewrite (recv_all_cons s c (c' :: cs)).
+    rewrite recv_all_one. change (concat (c :: c' :: cs)) with (c ++ concat (c' :: cs)).
+    rewrite <- recv_app. rewrite (recv_all_cons s c [concat (c' :: cs)]).
+    destruct (recv s c) as [[s1 x]| |]; try reflexivity.
+    now rewrite (IH s1 c').
+Qed.
+
+Lemma recv_nil s : buf s = [] -> recv s [] = ROk (s, no_out).
+Proof.
+  intros H. unfold WebSocket.recv. destruct (crecv s) eqn:Ec; [reflexivity|].
+  rewrite H. cbn. destruct s as [b p cr csn]. cbn in *. now subst.
+Qed.
+
+Theorem segmentation s chunks : buf s = [] ->
+  recv_all s chunks = recv_all s [concat chunks].
+Proof.
+  intros H. destruct chunks as [|c cs]; [|apply segmentation_ne].
+  cbn [concat WebSocket.recv_all]. now rewrite (recv_nil s H).
+Qed.
+
+Corollary segmentation_eq s cs1 cs2 : buf s = [] -> concat cs1 = concat cs2 ->
+  recv_all s cs1 = recv_all s cs2.
+Proof. intros H E. now rewrite (segmentation s cs1 H), (segmentation s cs2 H), E. Qed.
+
+(* the frame loop always has enough fuel; the decoder side cannot crash when no pong is due *)
+Lemma recv_no_fuel s c : recv s c <> RFuel.
+Proof.
+  unfold WebSocket.recv. destruct (crecv s); [discriminate|].
+  pose proof (loop_no_fuel keyfn client (S (length (buf s ++ c))) (csent s) (ps s) (buf s ++ c) ltac:(lia)) as F.
+  destruct (loop _ _ _ _) as [r| |]; try congruence.
+  destruct (r_closed r); [unfold on_close|]; discriminate.
+Qed.
+
+End Comp.
+
+(* ================================================================== J. messages, fragments, control frames *)
+
+Section Items.
+Variable k4 : nat -> key4.          (* the masking keys the endpoint draws: any *)
+Variable client : bool.
+Definition keyf (n : nat) : list N := key_list (k4 n).
+Notation loop := (loop keyf client).
+Notation frame_act := (frame_act keyf client).
+Notation bump := (bump client).
+
+(* key of the n-th frame the endpoint writes *)
+Definition okey (n : nat) : option key4 := if client then Some (k4 n) else None.
+
+Lemma out_key_okey n : out_key keyf client n = option_map key_list (okey n).
+Proof. unfold out_key, okey, keyf. now destruct client. Qed.
+
+(* the pong frames answering the ping payloads qs, first key index n *)
+Fixpoint pongs (n : nat) (qs : list (list N)) : list (list N) :=
+  match qs with
+  | [] => []
+  | q :: r => rfc_frame true 10 (okey n) q :: pongs (bump n) r
+  end.
+Fixpoint bumps (n k : nat) : nat := match k with O => n | S k' => bumps (bump n) k' end.
+
+Lemma pongs_app a : forall n b, pongs n (a ++ b) = pongs n a ++ pongs (bumps n (length a)) b.
+Proof. induction a as [|q a IH]; intros n b; [reflexivity|]. cbn. now rewrite IH. Qed.
+Lemma bumps_add a : forall n b, bumps n (a + b) = bumps (bumps n a) b.
+Proof. induction a as [|a IH]; intros n b; [reflexivity|]. cbn. now rewrite IH. Qed.
+
+Definition prepend (ms : list msg) (ws : list (list N)) (r : R pres) : R pres :=
+  match r with
+  | ROk y => ROk (mkR (ms ++ r_msgs y) (ws ++ r_writes y) (r_closed y) (r_buf y) (r_ps y))
+  | RCrash => RCrash
+  | RFuel => RFuel
+  end.
+
+Lemma prepend_nil r : prepend [] [] r = r.
+Proof. destruct r as [[a b c d e]| |]; reflexivity. Qed.
+Lemma prepend_prepend a b c d r : prepend a b (prepend c d r) = prepend (a ++ c) (b ++ d) r.
+Proof. destruct r as [y| |]; cbn; try reflexivity. now rewrite !app_assoc. Qed.
+Lemma add_msg_prepend m r : add_msg m r = prepend [m] [] r.
+Proof. destruct r; reflexivity. Qed.
+Lemma add_write_prepend w r : add_write w r = prepend [] [w] r.
+Proof. destruct r; reflexivity. Qed.
+
+Definition wf_ctl (c : ctl) := match c with Ping _ p => wf_len p | Pong _ p => wf_len p end.
+Definition wf_frag (f : frag) := wf_len (frag_payload f) /\ Forall wf_ctl (frag_ctls f).
+Definition wf_item (i : item) :=
+  match i with
+  | IMsg _ f more => wf_frag f /\ Forall wf_frag more
+  | ICtl c => wf_ctl c
+  end.
+
+Lemma rfc_frame_length fin op mk p : (2 <= length (rfc_frame fin op mk p))%nat.
+Proof.
+  unfold rfc_frame, rfc_tail. cbn [length]. rewrite app_length.
+  destruct (_ <=? 125); [|destruct (_ <=? 65535)]; cbn [length]; lia.
+Qed.
+
+(* one RFC frame at the head of the data *)
+Lemma loop_rfc f cs p fin op mk pl t : op < 16 -> wf_len pl ->
+  (length (rfc_frame fin op mk pl ++ t) < f)%nat ->
+  loop f cs p (rfc_frame fin op mk pl ++ t) =
+  match frame_act cs p fin op pl with
+  | AMsg m p' => add_msg m (loop f cs p' t)
+  | AWrite w p' => add_write w (loop f cs p' t)
+  | ASkip p' => loop f cs p' t
+  | AClose => ROk (mkR [] [] true [] p)
+  | ACrash => RCrash
+  end.
+Proof. intros Ho Hp Hf. apply loop_step; [exact Hf|]. now apply parse_rfc_frame. Qed.
+
+Lemma act_ping p q : frame_act false p true 9 q =
+  AWrite (rfc_frame true 10 (okey (nk p)) q) (mkP (pend p) (ptype p) (bump (nk p))).
+Proof.
+  unfold WebSocket.frame_act. change (9 <? 8) with false. change (9 =? 8) with false.
+  change (9 =? 9) with true. cbv iota.
+  rewrite out_key_okey, encode_tail_rfc. reflexivity.
+Qed.
+
+Lemma act_pong cs p q : frame_act cs p true 10 q = ASkip p.
+Proof. reflexivity. Qed.
+
+Lemma act_close cs p q : frame_act cs p true 8 q = AClose.
+Proof. reflexivity. Qed.
+
+Lemma loop_ctls cl : forall f p t, Forall wf_ctl cl ->
+  (length (ctls_bytes cl ++ t) < f)%nat ->
+  loop f false p (ctls_bytes cl ++ t) =
+  prepend [] (pongs (nk p) (concat (map ctl_pings cl)))
+    (loop f false (mkP (pend p) (ptype p) (bumps (nk p) (length (concat (map ctl_pings cl))))) t).
+Proof.
+  induction cl as [|c cl IH]; intros f p t W Hf.
+  - cbn. rewrite prepend_nil. now destruct p.
+  - inversion W as [|? ? Wc Wl]; subst.
+    unfold ctls_bytes in *. cbn [map concat] in *. rewrite <- app_assoc in *.
+    assert (Hf' : (length (concat (map ctl_frame cl) ++ t) < f)%nat)
+      by (rewrite app_length in Hf; lia).
+    destruct c as [k q|k q]; cbn [ctl_frame ctl_pings app] in *.
+    + rewrite loop_rfc by (try assumption; lia). rewrite act_ping.
+      rewrite (IH f _ t Wl Hf'). cbn [pend ptype nk pongs bumps length].
+      rewrite add_write_prepend, prepend_prepend. reflexivity.
+    + rewrite loop_rfc by (try assumption; lia). rewrite act_pong.
+      now rewrite (IH f p t Wl Hf').
+Qed.
+
+Definition frags_pings (l : list frag) : list (list N) :=
+  concat (map ctl_pings (concat (map frag_ctls l))).
+
+Lemma frags_pings_cons f l : frags_pings (f :: l) = concat (map ctl_pings (frag_ctls f)) ++ frags_pings l.
+Proof. unfold frags_pings. cbn [map concat]. now rewrite map_app, concat_app. Qed.
+
+(* continuation frames complete the pending message; control frames in between are answered
+   and leave it alone *)
+Lemma loop_conts more : forall f acc ty n t, more <> [] -> Forall wf_frag more ->
+  (length (conts_bytes more ++ t) < f)%nat ->
+  loop f false (mkP acc (Some ty) n) (conts_bytes more ++ t) =
+  prepend [(ty =? 1, acc ++ concat (map frag_payload more))] (pongs n (frags_pings more))
+    (loop f false (mkP [] None (bumps n (length (frags_pings more)))) t).
+Proof.
+  induction more as [|[[k pl] cl] r IH]; intros f acc ty n t NE W Hf; [contradiction|].
+  inversion W as [|? ? [Wp Wc] Wr]; subst. cbn [frag_payload frag_ctls fst snd] in Wp, Wc.
+  cbn [conts_bytes] in *. rewrite <- !app_assoc in *.
+  rewrite frags_pings_cons. cbn [frag_ctls snd map concat frag_payload fst].
+  rewrite loop_rfc by (try assumption; lia).
+  assert (Hf1 : (length (ctls_bytes cl ++ conts_bytes r ++ t) < f)%nat)
+    by (rewrite app_length in Hf; lia).
+  destruct r as [|fr r'].
+  - (* last fragment *)
+    unfold WebSocket.frame_act. change (0 <? 8) with true. cbv iota. cbn [pend ptype nk].
+    cbn [conts_bytes app] in *.
+    rewrite (loop_ctls cl f _ t Wc Hf1). cbn [pend ptype nk].
+    rewrite add_msg_prepend, prepend_prepend. cbn [app concat map].
+    unfold frags_pings. cbn [map concat]. rewrite !app_nil_r.
+    unfold is_text. change (0 =? 1) with false. change (0 =? 0) with true. cbn [orb andb].
+    reflexivity.
+  - unfold WebSocket.frame_act. change (0 <? 8) with true. cbv iota. cbn [pend ptype nk].
+    change (0 =? 0) with true. cbv iota.
+    rewrite (loop_ctls cl f _ _ Wc Hf1). cbn [pend ptype nk].
+    assert (Hf2 : (length (conts_bytes (fr :: r') ++ t) < f)%nat)
+      by (rewrite app_length in Hf1; lia).
+    rewrite (IH f (acc ++ pl) ty _ t ltac:(discriminate) Wr Hf2).
+    rewrite prepend_prepend. cbn [app]. rewrite pongs_app, <- app_assoc.
+    rewrite app_length, bumps_add. reflexivity.
+Qed.
+
+Lemma item_pings_msg text f more : item_pings (IMsg text f more) = frags_pings (f :: more).
+Proof. unfold item_pings, frags_pings. cbn [map concat]. reflexivity. Qed.
+
+Lemma loop_item i : forall f n t, wf_item i ->
+  (length (item_bytes i ++ t) < f)%nat ->
+  loop f false (mkP [] None n) (item_bytes i ++ t) =
+  prepend (item_msgs i) (pongs n (item_pings i))
+    (loop f false (mkP [] None (bumps n (length (item_pings i)))) t).
+Proof.
+  destruct i as [text [[k pl] cl] more|c]; intros f n t W Hf.
+  - destruct W as [[Wp Wc] Wm]. cbn [frag_payload frag_ctls fst snd] in Wp, Wc.
+    rewrite item_pings_msg, frags_pings_cons. cbn [frag_ctls snd].
+    cbn [item_bytes item_msgs frag_payload fst snd] in *. rewrite <- !app_assoc in *.
+    assert (Hop : (if text then 1 else 2) < 16) by (destruct text; lia).
+    rewrite loop_rfc by (try assumption; lia).
+    assert (Hf1 : (length (ctls_bytes cl ++ conts_bytes more ++ t) < f)%nat)
+      by (rewrite app_length in Hf; lia).
+    destruct more as [|fr more'].
+    + unfold WebSocket.frame_act.
+      replace ((if text then 1 else 2) <? 8) with true by (destruct text; reflexivity).
+      cbv iota. cbn [pend ptype nk conts_bytes app] in *.
+      rewrite (loop_ctls cl f _ t Wc Hf1). cbn [pend ptype nk].
+      rewrite add_msg_prepend, prepend_prepend. cbn [app concat map].
+      unfold frags_pings. cbn [map concat]. rewrite !app_nil_r.
+      unfold is_text. destruct text; reflexivity.
+    + unfold WebSocket.frame_act.
+      replace ((if text then 1 else 2) <? 8) with true by (destruct text; reflexivity).
+      replace ((if text then 1 else 2) =? 0) with false by (destruct text; reflexivity).
+      cbv iota. cbn [pend ptype nk app].
+      rewrite (loop_ctls cl f _ _ Wc Hf1). cbn [pend ptype nk].
+      assert (Hf2 : (length (conts_bytes (fr :: more') ++ t) < f)%nat)
+        by (rewrite app_length in Hf1; lia).
+      rewrite (loop_conts (fr :: more') f pl _ _ t ltac:(discriminate) Wm Hf2).
+      rewrite prepend_prepend. cbn [app]. rewrite pongs_app.
+      rewrite app_length, bumps_add.
+      replace ((if text then 1 else 2) =? 1) with text by (destruct text; reflexivity).
+      reflexivity.
+  - cbn [item_bytes item_msgs item_pings] in *.
+    replace (ctl_frame c) with (ctls_bytes [c]) in * by (unfold ctls_bytes; cbn; apply app_nil_r).
+    rewrite (loop_ctls [c] f _ t) by (try assumption; repeat constructor; exact W).
+    cbn [pend ptype nk map concat]. rewrite app_nil_r. reflexivity.
+Qed.
+
+Theorem loop_items l : forall f n t, Forall wf_item l ->
+  (length (items_bytes l ++ t) < f)%nat ->
+  loop f false (mkP [] None n) (items_bytes l ++ t) =
+  prepend (expected_msgs l) (pongs n (expected_pings l))
+    (loop f false (mkP [] None (bumps n (length (expected_pings l)))) t).
+Proof.
+  induction l as [|i l IH]; intros f n t W Hf.
+  - cbn. now rewrite prepend_nil.
+  - inversion W as [|? ? Wi Wl]; subst.
+    unfold items_bytes, expected_msgs, expected_pings in *. cbn [map concat] in *.
+    rewrite <- app_assoc in *.
+    rewrite (loop_item i f n _ Wi Hf).
+    assert (Hf' : (length (concat (map item_bytes l) ++ t) < f)%nat)
+      by (rewrite app_length in Hf; lia).
+    rewrite (IH f _ t Wl Hf').
+    rewrite prepend_prepend, pongs_app, app_length, bumps_add. reflexivity.
+Qed.
+
+(* ---- the component: a clean state, key index n *)
+Definition clean (n : nat) : st := mkS [] (mkP [] None n) false false.
+Notation recv := (recv keyf client).
+Notation recv_all := (recv_all keyf client).
+Notation send := (send keyf client).
+
+Theorem recv_items l n : Forall wf_item l ->
+  recv (clean n) (items_bytes l) =
+  ROk (clean (bumps n (length (expected_pings l))),
+       mkO (expected_msgs l) (pongs n (expected_pings l)) 0).
+Proof.
+  intros W. unfold WebSocket.recv, clean. cbn [crecv buf csent WebSocket.ps app].
+  rewrite <- (app_nil_r (items_bytes l)) at 2.
+  rewrite loop_items by (try assumption; rewrite app_nil_r; lia).
+  destruct (length (items_bytes l)); cbn [WebSocket.loop prepend r_closed r_msgs r_writes r_buf r_ps];
+    now rewrite !app_nil_r.
+Qed.
+
+(* a close frame ends it: what follows is never looked at, the close frame is answered once *)
+Theorem recv_items_close l n k q junk : Forall wf_item l -> wf_len q ->
+  recv (clean n) (items_bytes l ++ rfc_frame true 8 k q ++ junk) =
+  ROk (mkS [] (mkP [] None (bumps n (length (expected_pings l)))) true true,
+       mkO (expected_msgs l) (pongs n (expected_pings l) ++ [[136; 0]]) 1).
+Proof.
+  intros W Wq. unfold WebSocket.recv, clean. cbn [crecv buf csent WebSocket.ps app].
+  set (d := items_bytes l ++ rfc_frame true 8 k q ++ junk).
+  unfold d at 2. rewrite loop_items by (try assumption; fold d; lia).
+  rewrite loop_rfc; [|lia|assumption|].
+  - rewrite act_close.
+    cbn [prepend r_closed r_msgs r_writes r_buf r_ps on_close
+         crecv buf csent WebSocket.ps written pclose].
+    now rewrite !app_nil_r.
+  - subst d. rewrite !app_length. lia.
+Qed.
+
+(* the write handler emits exactly the RFC frame of the message *)
+Theorem send_rfc s text p : csent s = false ->
+  send s text p =
+  ROk (mkS (buf s) (mkP (pend (ps s)) (ptype (ps s)) (bump (nk (ps s)))) (crecv s) false,
+       mkO [] [rfc_frame true (if text then 1 else 2) (okey (nk (ps s))) p] 0).
+Proof.
+  intros H. unfold WebSocket.send. rewrite H, out_key_okey, encode_tail_rfc.
+  destruct text; reflexivity.
+Qed.
+
+Theorem send_closed s text p : csent s = true -> send s text p = ROk (s, no_out).
+Proof. intros H. unfold WebSocket.send. now rewrite H. Qed.
+
+(* with four-byte keys nothing in the codec raises, whatever bytes arrive *)
+Lemma loop_no_crash f : forall cs p d, loop f cs p d <> RCrash.
+Proof.
+  induction f as [|f IH]; intros cs p d; [discriminate|]. cbn [WebSocket.loop].
+  destruct d as [|b d']; [discriminate|].
+  destruct (parse_frame (b :: d')) as [|fin o pl r|] eqn:E; try discriminate.
+  - destruct (frame_act cs p fin o pl) as [m p'|w p'|p'| |] eqn:EA; try discriminate.
+    + specialize (IH cs p' r). destruct (loop f cs p' r); cbn; congruence.
+    + specialize (IH cs p' r). destruct (loop f cs p' r); cbn; congruence.
+    + apply IH.
+    + exfalso. unfold WebSocket.frame_act in EA.
+      rewrite out_key_okey, encode_tail_rfc in EA.
+      repeat match type of EA with (if ?c then _ else _) = _ => destruct c end; discriminate.
+  - now apply parse_frame_total in E.
+Qed.
+
+Theorem recv_total s c : exists s' o, recv s c = ROk (s', o).
+Proof.
+  pose proof (recv_no_fuel keyf client s c) as NF.
+  unfold WebSocket.recv in *. destruct (crecv s); [eauto|].
+  pose proof (loop_no_crash (S (length (buf s ++ c))) (csent s) (ps s) (buf s ++ c)) as NC.
+  destruct (WebSocket.loop _ _ _ _ _ _) as [r| |]; try congruence.
+  destruct (r_closed r); [unfold on_close|]; eauto.
+Qed.
+
+(* messages, fragmented or not, with control frames in between, under every cut into reads *)
+Theorem recv_items_any_cut l n chunks : Forall wf_item l -> concat chunks = items_bytes l ->
+  recv_all (clean n) chunks =
+  ROk (clean (bumps n (length (expected_pings l))),
+       mkO (expected_msgs l) (pongs n (expected_pings l)) 0).
+Proof.
+  intros W E. rewrite (segmentation keyf client (clean n) chunks eq_refl), E.
+  rewrite recv_all_one. now apply recv_items.
+Qed.
+
+Theorem recv_items_close_any_cut l n k q junk chunks : Forall wf_item l -> wf_len q ->
+  concat chunks = items_bytes l ++ rfc_frame true 8 k q ++ junk ->
+  recv_all (clean n) chunks =
+  ROk (mkS [] (mkP [] None (bumps n (length (expected_pings l)))) true true,
+       mkO (expected_msgs l) (pongs n (expected_pings l) ++ [[136; 0]]) 1).
+Proof.
+  intros W Wq E. rewrite (segmentation keyf client (clean n) chunks eq_refl), E.
+  rewrite recv_all_one. now apply recv_items_close.
+Qed.
+
+(* one unfragmented frame, any length class, any key, any cut *)
+Theorem roundtrip (text : bool) mk p n chunks : wf_len p ->
+  concat chunks = rfc_frame true (if text then 1 else 2) mk p ->
+  recv_all (clean n) chunks = ROk (clean n, mkO [(text, p)] [] 0).
+Proof.
+  intros Wp E.
+  pose proof (recv_items_any_cut [IMsg text (mk, p, []) []] n chunks) as H.
+  unfold items_bytes, expected_msgs, expected_pings in H.
+  cbn [map concat item_bytes item_msgs item_pings frag_payload frag_ctls fst snd ctls_bytes conts_bytes
+       ctl_pings app length bumps pongs] in H.
+  rewrite !app_nil_r in H. apply H; [|exact E].
+  repeat constructor. exact Wp.
+Qed.
+
+End Items.
